@@ -41,7 +41,7 @@ var simpleCtors = []string{
 var ringSizes = []int{1, 2, 3, 8, 64, 1024}
 
 func buildCases(r *vrun.Run, scratch string) []Case {
-	reps := r.Pick(3, 20)
+	reps := r.Pick(4, 20)
 	total := r.Pick(3200, 12000) // messages per child, split over the producers
 	quickP := []int{2, 4, 8, 8, 8, 16, 32}
 	thorP := []int{2, 3, 4, 5, 8, 8, 12, 16, 24, 32, 32}
